@@ -25,7 +25,7 @@ SPEC = {
     'exhaustive': {'quick': False, 'thorough': False},
     'required_counters': ['ref_triple_checks', 'selfconsistency_checks', 'meta_drop_false', 'meta_after_winner', 'meta_insert_false',
                           'meta_unmatched_variation', 'production_path_checks', 'csv_path_checks', 'pipeline_path_checks',
-                          'pipeline_twins_with_different_triples'],
+                          'pipeline_twins_with_different_triples', 'legacy_parser_path_checks'],
     'assumptions': ['conditions are well-typed (failing conditions are property C08); no variable refers to another variable',
                     '[date:lastNdays] is excluded (depends on today); CSV [amount=N] is not probed within 0.01 of N',
                     'letters have a simple one-to-one case mapping'],
@@ -200,6 +200,54 @@ def judge_pipeline(rec, rf, txns, rows, tmp, rnd, ptxns=None):
             break
 
 
+def judge_legacy_parsers(rec, rf, txns, tmp, rnd):
+    """The deprecated amex / boa readers classify with the same rules: each row gets the triple of its first matching categorizing rule
+    (no transforms, no custom fields, no supplemental data reach the matcher on this path)."""
+    import re as _re
+    plain = R.RuleFile(variables=rf.variables, transforms=[], rules=rf.rules)
+    path = O.write(os.path.join(tmp, 'm.rules'), R.render(plain))
+    try:
+        prules, _ = O.production_load(path)
+    except Exception:
+        return
+    for which in ('amex', 'boa'):
+        src = which.upper()
+        pt = []
+        for t in txns:
+            d = (t.get('description') or '')
+            if t.get('date') is None or not t.get('amount') or not d.strip() or d != d.strip() or '\n' in d or '\t' in d:
+                continue
+            if which == 'boa' and (_re.search(r'\s{2,}', d) or _re.search(r'\s[-\d,]+\.\d{2}$', d) or abs(t['amount']) >= 1e6):
+                continue
+            amt = float(t['amount']) if which == 'amex' else round(float(t['amount']), 2)
+            if amt == 0:
+                continue
+            pt.append({'description': d, 'amount': amt, 'date': t['date'], 'source': src, 'field': None, 'location': None})
+        if not pt:
+            continue
+        case = {'kind': 'legacy-parser', 'which': which, 'rf': plain.to_json(), 'rows': {}, 'txns': [O.jtxn(t) for t in pt]}
+        try:
+            refs = [R.ref_match(plain, t, {}) for t in pt]
+            got = O.legacy_parser_results(prules, pt, tmp, which)
+        except R.OutOfDomain:
+            rec.count('out_of_domain')
+            continue
+        except O.ImplError as e:
+            rec.violation('impl-raises:' + type(e.exc).__name__, str(e)[:300], case)
+            continue
+        if len(got) != len(pt):
+            rec.count('legacy_parser_row_count_differs_not_judged')
+            continue
+        for t, r, g in zip(pt, refs, got):
+            rec.case()
+            rec.count('legacy_parser_path_checks')
+            if g['triple'] != r['triple']:
+                rec.violation('legacy-parser-triple-differs-from-reference:' + which,
+                              f'parse_{which}: row {t["description"]!r} amount={t["amount"]} date={t["date"]} got {g["triple"]}, first matching categorizing rule '
+                              f'gives {r["triple"]}', case)
+                break
+
+
 def judge_csv(rec, crules, txns, tmp, rnd):
     text = R.render_csv(crules, rnd)
     path = O.write(os.path.join(tmp, 'merchant_categories.csv'), text)
@@ -257,6 +305,8 @@ def run(rec, shard, nshards, t):
             txns += world.field_twins(rnd, txns)
             judge_file(rec, rf, txns, rows, tmp, rnd, deep=True)
             judge_pipeline(rec, rf, txns, rows, tmp, rnd)
+            if i % 3 == 0:
+                judge_legacy_parsers(rec, rf, txns, tmp, rnd)
             if i < 1 and shard == 0:
                 rec.sample({'rules_file': R.render(rf), 'txn': O.jtxn(txns[0])})
         ncsv = (100 if t == 'quick' else 2000) // nshards
@@ -275,7 +325,9 @@ def replay(rec, case):
     tmp = tempfile.mkdtemp(prefix='vt-c01-')
     try:
         txns = [O.untxn(x) for x in case['txns']]
-        if case['kind'] == 'pipeline':
+        if case['kind'] == 'legacy-parser':
+            judge_legacy_parsers(rec, R.RuleFile.from_json(case['rf']), txns, tmp, rnd)
+        elif case['kind'] == 'pipeline':
             judge_pipeline(rec, R.RuleFile.from_json(case['rf']), None, case['rows'], tmp, rnd, ptxns=txns)
         elif case['kind'] == 'csv':
             judge_csv(rec, [R.CsvRule.from_json(r) for r in case['rules']], txns, tmp, None)
